@@ -36,16 +36,17 @@ def c11_1(ctx, ss):
     nm = rets[0].value.id
     d = single_def(flow, rets[0].value)
     k = ckey(ff, None, "writer")
-    base = {}
-    if d is not None and isinstance(d.value, ast.Dict):
-        base = {kk.value: txt(v) for kk, v in zip(d.value.keys, d.value.values) if isinstance(kk, ast.Constant)}
+    from .common import dict_entries
+    ents, est, econd = dict_entries(ff, flow, nm)
+    base = {k_.strip("'\""): txt(v) for k_, v in ents if k_ != "**"}
     ok_base = base.get("bf") == "self.bf" and base.get("fs") in ("self.daughters.to_list()", "sorted(self.daughters.elements())")
     (ctx.holds if ok_base else ctx.violation)("C11.1", k + " :: bf-fs", where(ff, ff.node),
                                               "to_dict writes bf = self.bf and fs = self.daughters.to_list()" if ok_base else f"to_dict starts from {base}")
-    upd = [(st, args) for st, m, args in builder_sites(ff, flow, nm) if m == "update"]
-    ok_u = any(txt(a[0]) == "self.metadata" and not [c for c in guards.path_conditions(ff.node, st) if c[0] == "if"] for st, a in upd if a)
+    spreads = [txt(v) for k_, v in ents if k_ == "**"]
+    # every metadata key is written, after bf / fs (so that the dictionary form has them all)
+    ok_u = spreads == ["self.metadata"] and not econd and ents and ents[-1][0] == "**"
     (ctx.holds if ok_u else ctx.violation)("C11.1", k + " :: metadata", where(ff, ff.node),
-                                           "to_dict adds every metadata key (d.update(self.metadata))" if ok_u else "to_dict does not write all metadata keys: user metadata is lost in the dictionary form")
+                                           "to_dict adds every metadata key (update / ** of self.metadata)" if ok_u else "to_dict does not write all metadata keys: user metadata is lost in the dictionary form")
     dels = [n for n in pf.walk_no_nested(ff.node) if isinstance(n, ast.Delete) or (isinstance(n, ast.Call) and isinstance(n.func, ast.Attribute) and n.func.attr in ("pop", "popitem", "clear"))]
     if dels:
         ctx.violation("C11.1", k + " :: drops", where(ff, dels[0]), "to_dict removes keys from the dictionary it returns")
@@ -103,17 +104,15 @@ def ctor_clauses(ctx, ss, rule):
     (ctx.holds if okd else ctx.violation)(rule, k + " :: fs", where(ff, ff.node),
                                           "daughters = DaughtersDict(daughters, or info.pop('fs') when no daughters are given)" if okd
                                           else "the 'fs' entry of the dictionary form does not become the daughters")
-    upd = [c for c in pf.calls_in(ff.node) if txt(c.func) == "self.metadata.update"]
-    oku = bool(upd) and any((any(kw.arg is None and txt(kw.value) == "info" for kw in c.keywords) or (c.args and txt(c.args[0]) == "info"))
-                            and not [x for x in guards.path_conditions(ff.node, stmt_of(ff, c)) if x[0] == "if"] for c in upd)
+    from .common import dict_entries
+    ents, est, econd = dict_entries(ff, flow, "self.metadata")
+    spreads = [txt(v) for k_, v in ents if k_ == "**"]
+    oku = spreads == ["info"] and not econd
     (ctx.holds if oku else ctx.violation)(rule, k + " :: metadata", where(ff, ff.node),
                                           "every extra keyword is stored in metadata" if oku else "extra keywords (user metadata) are not all stored")
-    # metadata default keys
-    st_m = [s for s in pf.iter_stmts(ff.node.body) if isinstance(s, (ast.Assign, ast.AnnAssign)) and txt(s.targets[0] if isinstance(s, ast.Assign) else s.target) == "self.metadata"]
-    okm = len(st_m) == 1 and isinstance(st_m[0].value, ast.Dict) and sorted(kk.value for kk in st_m[0].value.keys) == ["model", "model_params"]
-    cfg = flow.cfg
-    if okm and upd and not cfg.dominates(cfg.node_of(st_m[0]), cfg.node_of(stmt_of(ff, upd[0]))):
-        okm = False
+    # metadata default keys come first, so that the user's values override them
+    keys_ = [k_.strip("'\"") for k_, v in ents if k_ != "**"]
+    okm = sorted(keys_) == ["model", "model_params"] and bool(ents) and ents[-1][0] == "**" and all(isinstance(v, ast.Constant) and v.value == "" for k_, v in ents if k_ != "**")
     (ctx.holds if okm else ctx.violation)(rule, k + " :: defaults", where(ff, ff.node),
                                           "metadata starts with the two default keys, then takes the user's" if okm else "metadata defaults are missing or overwrite the user's values")
 
@@ -171,6 +170,9 @@ def c11_2(ctx, ss):
         sites = builder_sites(ff, flow, rn.id)
         okapp = len(sites) == 1 and sites[0][1] == "append" and flow.text(sites[0][2][0]) == "self.decays[mother].to_dict()" \
             and flow.cfg.must_pass({flow.cfg.node_of(sites[0][0])})
+    elif isinstance(rn, (ast.List, ast.Tuple)) and len(rn.elts) == 1:
+        # literal form: return {mother: [dm]}
+        okapp = flow.text(rn.elts[0]) == "self.decays[mother].to_dict()"
     (ctx.holds if okapp else ctx.violation)("C11.2", ckey(ff, None, "mode-kept"), where(ff, ff.node),
                                             "the (expanded) mode dictionary is the single entry of the mother's list" if okapp else "the mode dictionary is not put into the result exactly once")
     top, tflow = fn(ss, DECAY, "DecayChain.to_dict")
@@ -353,6 +355,8 @@ def c11_7b(ctx, ss):
 
     def whole(e):
         """e denotes (a copy of) one whole mode dictionary of the input"""
+        if isinstance(e, ast.Call) and txt(e.func) == "__phi__":
+            return all(whole(a) for a in e.args)
         while True:
             if isinstance(e, ast.Call) and txt(e.func) in COPIES and len(e.args) == 1 and not e.keywords:
                 e = e.args[0]
@@ -369,7 +373,7 @@ def c11_7b(ctx, ss):
         if isinstance(v, ast.Call) and txt(v.func) == "DecayMode" and any(kw.arg is None and "__elem__" in txt(kw.value) for kw in v.keywords):
             continue
         bad.append(txt(v)[:120])
-    okb = len(vals) >= 2 and not bad
+    okb = len(vals) >= 1 and not bad
     (ctx.holds if okb else ctx.violation)("C11.7", ckey(ff, None, "reader-modes"), where(ff, sets[0]),
                                           "every branch stores a DecayMode built from the whole mode dictionary (all keys carried)" if okb
                                           else f"a mode is built as `{(bad or ['?'])[0]}`: keys of the mode dictionary other than the ones picked (user metadata) are lost")
